@@ -57,7 +57,8 @@ Definition judge_ok (s : sstate) (o : op) : bool :=
   | OpInsert n b d =>
       match alookup n (s_tabs s) with
       | None => true
-      | Some old => if b then match project (names old) (df_tbl d) with Some u => compatible old u | None => true end
+      | Some old => if b then Nat.eqb (List.length (t_cols (df_tbl d))) (List.length (t_cols old))   (* extra columns: not judged *)
+                              && match project (names old) (df_tbl d) with Some u => compatible old u | None => true end
                     else compatible old (df_tbl d)
       end
   | OpSave n a sf d =>
@@ -75,12 +76,17 @@ Definition judge_ok (s : sstate) (o : op) : bool :=
            | None => true
            end
       else true
-  | OpReadPath p f => match alookup p (s_files s) with Some (CFull g _) => fmt_eqb f g | Some CPartial => false | None => true end
+  | OpReadPath p f => match alookup p (s_files s) with
+                      | Some (CFull g t) => fmt_eqb f g && file_safe g t      (* written by a judged step *)
+                      | Some CPartial => false
+                      | None => true
+                      end
   | _ => true
   end.
 
 (** is the step inside the region where the model claims to describe the implementation exactly?  (everything of
-    [op_wf] except inserts whose positional column types differ: DuckDB then casts values) *)
+    [op_wf] except inserts whose positional column types differ -- DuckDB then casts values -- and reads of files
+    that hold a frame outside the inference-safe fragment) *)
 Definition faithful_ok (c : cfg) (m : mstate) (o : op) : bool :=
   let pos_ok n proj d :=
     match alookup n (m_tabs m) with
@@ -93,7 +99,11 @@ Definition faithful_ok (c : cfg) (m : mstate) (o : op) : bool :=
       pos_ok n (if b then match byname_source c with ByCache => cached m n | ByEngine => actual (m_tabs m) n end
                 else None) d
   | OpSave n a s d => match sat_plan c a s with SatInsert => pos_ok n None d | _ => true end
-  | OpReadPath p f => match alookup p (m_files m) with Some (CFull g _) => fmt_eqb f g | Some CPartial => false | None => true end
+  | OpReadPath p f => match alookup p (m_files m) with
+                      | Some (CFull g t) => fmt_eqb f g && file_safe g t
+                      | Some CPartial => false
+                      | None => true
+                      end
   | _ => true
   end.
 
